@@ -621,7 +621,7 @@ def returns_with_atoms(fn, watch, limit=20000):
     return out, rets
 
 
-def escapes_const(fn, start_bid, is_pass, exempt_edge=None, target_expr=None, init_env=None, limit=20000, track_mem=(), call_kills=None):
+def escapes_const(fn, start_bid, is_pass, exempt_edge=None, target_expr=None, init_env=None, limit=20000, track_mem=(), call_kills=None, target_env=None):
     """Like escapes(), starting at the head of block start_bid, but path-sensitive in the integer constants last assigned
     to local variables: a branch on `v`, `!v`, `v == K`, `v != K`, `v < K`, `v >= K` whose outcome is decided by the
     constant held by v is followed only along the decided edge.  Returns None or the list of (block, line) of a path
@@ -644,6 +644,8 @@ def escapes_const(fn, start_bid, is_pass, exempt_edge=None, target_expr=None, in
                 stop = True
                 break
             if target_expr is not None and target_expr(x):
+                return path + [(bid, ln)]
+            if target_env is not None and target_env(x, env):
                 return path + [(bid, ln)]
             if x.get("k") == "ret":
                 stop = True
@@ -746,3 +748,11 @@ def edge_atoms(b, k):
     if not t or "c" not in t or len(b["succ"]) != 2 or t.get("k") == "switch":
         return []
     return [(txt, tr) for (txt, tr, nd) in _cond_atoms(t["c"], k == 0)]
+
+
+def ret_negative_in(x, env):
+    """`return v` where the constant last assigned to the local v on this path (env of escapes_const) is negative"""
+    e = strip(x.get("e")) if x.get("e") is not None else None
+    while e is not None and e.get("k") == "cast":
+        e = strip(e["e"])
+    return e is not None and e.get("k") == "var" and e.get("n") in env and env[e["n"]] < 0
